@@ -137,6 +137,21 @@ func TestVerif_C11(t *testing.T) {
 				r.Violation("C11|membership|threshold-differs-from-reference", fmt.Sprintf("final threshold at %d is %d, reference %d", q, got, rt),
 					map[string]any{"timestamp": q})
 			}
+			// the pledging node follows every preceding record too (a cancellation or an acceptance ends the pledge)
+			refPledging := "none"
+			if list := h.refList(q); len(list) > 0 && list[len(list)-1].State == common.NodeStatePledging {
+				refPledging = list[len(list)-1].Id.String()
+			}
+			gotPledging := "none"
+			if p := full.PledgingNode(q); p != nil {
+				gotPledging = p.IdForNetwork.String()
+			}
+			if gotPledging != refPledging {
+				r.Violation("C11|membership|pledging-node-differs-from-reference", fmt.Sprintf("pledging node at %d is %s, by the records before it %s", q, gotPledging, refPledging),
+					map[string]any{"timestamp": q})
+			} else if refPledging != "none" {
+				r.Count("views_with_a_pledging_node_checked_against_the_reference", 1)
+			}
 			if r.SampleCount() < 2 {
 				r.Sample(map[string]any{"timestamp": q, "view": b})
 			}
